@@ -454,3 +454,176 @@ def tables(lexicals):
     rank = {x: i + 1 for i, x in enumerate(sorted(lex))}
     canon = sorted(x for x in num if x == str(int(float(x))) and num[x] % SCALE == 0)
     return kind, num, rank, canon
+
+
+# ----------------------------------------------------------------------------- updates
+
+DEFAULT_G = ["c", ""]
+NEW_GRAPH = NS + "g4"
+
+
+def pr_tmpl(quads):
+    by = {}
+    for s, p, o, g in quads:
+        by.setdefault(tuple(g), []).append((s, p, o))
+    out = []
+    for g, ts in by.items():
+        inner = " ".join(f"{trb(s)} {trb(p)} {trb(o)} ." for s, p, o in ts)
+        out.append(inner if g == ("c", "") else f"GRAPH {trb(list(g))} {{ {inner} }}")
+    return " ".join(out)
+
+
+def trb(t):
+    return "_:" + t[1] if t[0] == "b" else tr(t)
+
+
+def pr_update(op):
+    f = op["form"]
+    if f == "insert_data":
+        return "INSERT DATA { " + pr_tmpl(op["ins"]) + " }"
+    if f == "delete_data":
+        return "DELETE DATA { " + pr_tmpl(op["del"]) + " }"
+    if f == "delete_where_short":
+        return "DELETE WHERE { " + pr_tmpl(op["del"]) + " }"
+    w = " WHERE { " + pr_group(op["where"]) + " }"
+    if f == "insert_where":
+        return "INSERT { " + pr_tmpl(op["ins"]) + " }" + w
+    if f == "delete_where":
+        return "DELETE { " + pr_tmpl(op["del"]) + " }" + w
+    return "DELETE { " + pr_tmpl(op["del"]) + " } INSERT { " + pr_tmpl(op["ins"]) + " }" + w
+
+
+def where_of_quads(quads):
+    """DELETE WHERE shorthand: the quad block is also the WHERE pattern."""
+    by = {}
+    for s, p, o, g in quads:
+        by.setdefault(tuple(g), []).append([s, p, o])
+    ps = []
+    for g, tps in by.items():
+        b = {"t": "bgp", "tps": tps}
+        ps.append(b if g == ("c", "") else {"t": "graph", "name": list(g), "p": {"t": "join", "ps": [b]}})
+    return {"t": "join", "ps": ps}
+
+
+class UpdGen:
+    def __init__(self, rng, pool):
+        self.rng = rng
+        self.pool = list(pool)      # quads seen so far (bias only, not an oracle)
+
+    def cquad(self, existing=False):
+        r = self.rng
+        if existing and self.pool and r.random() < 0.8:
+            s, p, o, g = r.choice(self.pool)
+        else:
+            s = r.choice(IRIS[:4])
+            k = r.random()
+            p, o = (r.choice(P_IRI), r.choice(IRIS[:5])) if k < 0.5 else ((P_VAL, r.choice(INTS)) if k < 0.75 else (P_LIT, r.choice(LITS)))
+            g = r.choice(["", "", GRAPHS[0], GRAPHS[1], NEW_GRAPH if r.random() < 0.3 else GRAPHS[2]])
+        return [C(s), C(p), C(o), C(g)]
+
+    def template(self, scope, insert):
+        r = self.rng
+        scope = sorted(scope)
+        out = []
+        for _ in range(r.choice([1, 1, 2])):
+            def pick(pos):
+                k = r.random()
+                if scope and k < 0.7:
+                    return V(r.choice(scope))
+                if insert and pos in (0, 2) and k < 0.8:
+                    return ["b", r.choice(["x", "y"])]
+                return C(r.choice(IRIS[:5])) if pos != 1 else C(r.choice(P_IRI))
+            s, o = pick(0), pick(2)
+            p = V(r.choice(scope)) if scope and r.random() < 0.15 else C(r.choice(PREDS))
+            k = r.random()
+            g = DEFAULT_G if k < 0.5 else (V("g") if "g" in scope and k < 0.8 else C(r.choice(GRAPHS + [NEW_GRAPH])))
+            out.append([s, p, o, g])
+        return out
+
+    def op(self):
+        r = self.rng
+        k = r.random()
+        if k < 0.2:
+            qs = [self.cquad() for _ in range(r.choice([1, 2, 3]))]
+            self.pool += [(q[0][1], q[1][1], q[2][1], q[3][1]) for q in qs]
+            return {"form": "insert_data", "del": [], "ins": qs, "where": {"t": "unit"}}
+        if k < 0.35:
+            return {"form": "delete_data", "del": [self.cquad(True) for _ in range(r.choice([1, 2]))], "ins": [], "where": {"t": "unit"}}
+        if k < 0.5:
+            # DELETE WHERE shorthand: generalise existing quads
+            g = Gen(r, None, self.pool)
+            quads = []
+            for _ in range(r.choice([1, 1, 2])):
+                gname = r.choice(["", "", GRAPHS[0], GRAPHS[1]])
+                g.ctx = gname
+                b = g.bgp(1)
+                gt = DEFAULT_G if gname == "" else (V("g") if r.random() < 0.3 else C(gname))
+                quads.append(b["tps"][0] + [gt])
+            return {"form": "delete_where_short", "del": quads, "ins": [], "where": where_of_quads(quads)}
+        g = Gen(r, {"union", "graph", "filter", "values", "sub", "order", "limit", "distinct"}, self.pool)
+        if r.random() < 0.15:
+            # self-referential swap
+            p = C(r.choice(P_IRI))
+            where = {"t": "join", "ps": [{"t": "bgp", "tps": [[V("a"), p, V("b")]]}]}
+            return {"form": "delete_insert_where", "del": [[V("a"), p, V("b"), DEFAULT_G]], "ins": [[V("b"), p, V("a"), DEFAULT_G]], "where": where}
+        where = g.group(r.choice([0, 1, 1, 2]))
+        scope = g.pvars(where)
+        form = r.choice(["insert_where", "delete_where", "delete_insert_where"])
+        op = {"form": form, "del": [], "ins": [], "where": where}
+        if form != "insert_where":
+            op["del"] = self.template(scope, False)
+        if form != "delete_where":
+            op["ins"] = self.template(scope, True)
+        return op
+
+    def rejected(self):
+        """Requests every update entry point must refuse (text, why)."""
+        r = self.rng
+        k = r.randint(0, 5)
+        if k == 0:
+            return "INSERT DATA { ?s <http://e/p1> <http://e/i1> . }", "variable in INSERT DATA"
+        if k == 1:
+            return "DELETE DATA { _:b <http://e/p1> <http://e/i1> . }", "blank node in DELETE DATA"
+        if k == 2:
+            return "DELETE { _:b <http://e/p1> ?o . } WHERE { ?s <http://e/p1> ?o . }", "blank node in DELETE template"
+        if k == 3:
+            return "DELETE WHERE { _:b <http://e/p1> ?o . }", "blank node in DELETE WHERE"
+        if k == 4:
+            return 'INSERT DATA { GRAPH "l1" { <http://e/i1> <http://e/p1> <http://e/i2> . } }', "literal graph name"
+        return "DELETE DATA { <http://e/i1> <http://e/p1> ?o . }", "variable in DELETE DATA"
+
+
+GARBAGE = ["", " ", "{", "}", "SELECT", "SELECT WHERE", "INSERT DATA {", "DELETE WHERE", "é", "SELECT é", "SELECT ?s WHERE { ?s é ?o }",
+           "SELECT ?s WHERE { ?s ?p ?o } é", " ", "INSERT DATA { <a> <b> \"é }", "SELECT * WHERE { ?s ?p ?o ", "😀😀😀",
+           "PREFIX : <http://e/> SELECT", "SELECT ?s WHERE { GRAPH { ?s ?p ?o } }", "DROP ALL", "ASK { ?s ?p ?o }", "﻿SELECT * WHERE { }",
+           "SELECT ?s WHERE { ?s <http://e/p1> \"é", "INSERT DATA { <http://e/i1> <http://e/p1> 'é' . } é", "LOAD <x>", "select ☃ where {}"]
+MULTIBYTE = ["é", "✓", "😀", " ", "﻿", "ß"]
+
+
+def fuzz(rng, text):
+    """Structured faults on a valid request: returns (mutated text, fault description)."""
+    toks = text.split(" ")
+    k = rng.randint(0, 7)
+    i = rng.randrange(len(toks))
+    if k == 0:
+        return " ".join(toks[:i]), f"truncate after token {i}"
+    if k == 1:
+        return " ".join(toks[:i] + toks[i + 1:]), f"drop token {i}"
+    if k == 2:
+        return " ".join(toks[:i] + [toks[i]] + toks[i:]), f"duplicate token {i}"
+    if k == 3:
+        ch = rng.choice(MULTIBYTE)
+        return " ".join(toks[:i] + [ch] + toks[i:]), f"multibyte char at gap {i}"
+    if k == 4:
+        ch = rng.choice(MULTIBYTE)
+        t = toks[i]
+        j = rng.randint(0, len(t))
+        return " ".join(toks[:i] + [t[:j] + ch + t[j:]] + toks[i + 1:]), f"multibyte char inside token {i}"
+    if k == 5:
+        cut = rng.randint(0, len(text))
+        return text[:cut], f"truncate at char {cut}"
+    if k == 6:
+        j = rng.randrange(len(toks))
+        toks[i], toks[j] = toks[j], toks[i]
+        return " ".join(toks), f"swap tokens {i},{j}"
+    return text.replace("{", "", 1) if rng.random() < 0.5 else text.replace("}", "", 1), "remove a brace"
